@@ -236,7 +236,8 @@ def run_case(ctx, P, stream, idx):
             monitored(P, "docstring.parse", lambda: cdd.docstring.parse.docstring(text, **kw), len(text), budget_linear,
                       dict(w, text=text, kw=kw))
     elif stream == "hostile_ir":
-        ir = irgen.rand_ir(r, nparams=r.randint(0, 4), doc_kinds=("plain", "trigger", "multiline"))
+        ir = irgen.rand_ir(r, nparams=r.randint(0, 4), doc_kinds=("plain", "trigger", "multiline", "punct", "quoted"),
+                           default_kinds=irgen.DEFAULT_KINDS + ("strodd", "strbad", "strquote"))
         ir["doc"] = hostile_text(r)
         for p in ir["params"].values():
             if r.random() < 0.4:
